@@ -40,6 +40,21 @@ def _is_loc_eq(atom, allow_parent=False, any_polarity=False):
     return False
 
 
+def _parent_replaces_args(ci):
+    """some method of the replacer stores a new element into an argument list (`.args` / `.kwonlyargs`) that it searched
+    with the exact location test, and records the replacement"""
+    for m in ci.methods.values():
+        nodes = list(ast.walk(m.node))
+        over_args = any(isinstance(x, ast.Attribute) and x.attr in ("args", "kwonlyargs") and isinstance(x.value, ast.Attribute) and x.value.attr == "args" for x in nodes) \
+            or any(isinstance(x, ast.Call) and isinstance(x.func, ast.Name) and x.func.id == "getattr" and len(x.args) >= 2 and isinstance(x.args[0], ast.Attribute) and x.args[0].attr == "args" for x in nodes)
+        loc_eq = any(_is_loc_eq(x) == "exact" for x in nodes)
+        elem_store = any(isinstance(x, ast.Assign) and any(isinstance(t, ast.Subscript) for t in x.targets) for x in nodes)
+        flag = any(isinstance(x, ast.Assign) and any(isinstance(t, ast.Attribute) and t.attr == "replaced" for t in x.targets) for x in nodes)
+        if over_args and loc_eq and elem_store and flag:
+            return True
+    return False
+
+
 def rule_visit1(prog, rep, tier, anchor="ast_utils.RewriteAtQuery"):
     """VISIT-1: every visit_<T> override of the location replacer either returns the replacement under the location
     predicate or delegates to generic_visit on each path (otherwise nodes of type T can never be replaced)."""
@@ -93,6 +108,11 @@ def rule_visit1(prog, rep, tier, anchor="ast_utils.RewriteAtQuery"):
                         replaced = True
             if not (delegated or replaced):
                 bad.append(path)
+        if bad and name == "visit_arg" and _parent_replaces_args(ci):
+            # arguments are the one node kind a parent handler replaces (it owns their defaults): an override that leaves
+            # them alone does not make them unreplaceable
+            rep.holds("VISIT-1", "%s leaves arguments to the function handler, which replaces the addressed one in its argument list" % name, loc(prog, m.node), "")
+            continue
         if bad:
             rep.violation(Finding(
                 "VISIT-1", "%s.%s" % (anchor, name), name,
@@ -615,14 +635,17 @@ def rule_visit5(prog, rep, tier, anchor="emitter_utils.RewriteName", user="emit.
     # (a) every return of visit_Name that is not a delegation to generic_visit (i.e. a rewrite) is guarded by membership
     #     of node.id in the rename set (`id in S` true, or `id not in S` false, possibly next to the empty-set disjunct)
     def _membership_ok(guards):
-        for t, pol in guards:
-            for c in ast.walk(t):
-                if isinstance(c, ast.Compare) and len(c.ops) == 1 and isinstance(c.left, ast.Attribute) and c.left.attr == "id" \
-                        and isinstance(c.comparators[0], ast.Attribute) and c.comparators[0].attr == "node_ids":
-                    if isinstance(c.ops[0], ast.In) and pol is True:
-                        return True
-                    if isinstance(c.ops[0], ast.NotIn) and pol is False:
-                        return True
+        # the guards are decomposed into atomic facts (predicate helpers such as `self._is_param(node.id)` are seen
+        # through, `not in` is normalised): some fact that holds on the way to the rewrite contains `<id> in <rename set>`
+        for t0, pol0 in guards:
+            for t, pol in facts(t0, pol0):
+                for c in ast.walk(t):
+                    if isinstance(c, ast.Compare) and len(c.ops) == 1 and isinstance(c.left, ast.Attribute) and c.left.attr == "id" \
+                            and isinstance(c.comparators[0], ast.Attribute) and c.comparators[0].attr == "node_ids":
+                        if isinstance(c.ops[0], ast.In) and pol is True:
+                            return True
+                        if isinstance(c.ops[0], ast.NotIn) and pol is False:
+                            return True
         return False
 
     rewrites = []
@@ -644,7 +667,12 @@ def rule_visit5(prog, rep, tier, anchor="emitter_utils.RewriteName", user="emit.
         rep.violation(Finding("VISIT-5", anchor, "rename-without-membership",
                               "visit_Name builds self.<name> without testing membership of the name in the rename set: every name is touched", loc(prog, vn.node)))
     # (b) scope handlers
-    missing = [k for k in SCOPE_NODES if "visit_" + k not in ci.methods]
+    handled = set(ci.methods)
+    for st in ci.node.body:
+        # visit_X = visit_Y = _handler: class-level aliases of a method
+        if isinstance(st, ast.Assign) and isinstance(st.value, ast.Name) and st.value.id in ci.methods:
+            handled |= {t.id for t in st.targets if isinstance(t, ast.Name)}
+    missing = [k for k in SCOPE_NODES if "visit_" + k not in handled]
     uses_symtable = any(isinstance(n, ast.Name) and n.id == "symtable" for m in ci.methods.values() for n in ast.walk(m.node))
     if missing and not uses_symtable:
         rep.violation(Finding(
